@@ -103,7 +103,9 @@ Definition cstep (mw capw : N) (md : nat) (gen : index) (s : rstate) (o : cop) :
       let r := match update_proofs md U gen set basis (r_tip s) with ROk l => Some l | RErr _ => None end in
       let '(p', v) := add_v2 L capw (r_p s) r in (RS U L (r_tip s) p', XVerdict (verdict_class v))
   | CChain steps lr L' tip' upd => (RS (store U upd) L' tip' (chain_step steps lr (r_p s)), XNone)
-  | CStore upd => (RS (store U upd) L (r_tip s) (revalidate L capw (r_p s)), XNone)
+  (* AddBlocks that stores blocks without moving the tip calls no pool method: no revalidation here
+     (when the harness reads the pool afterwards, [check_trace] revalidates as for every observed call) *)
+  | CStore upd => (RS (store U upd) L (r_tip s) (r_p s), XNone)
   | CLook v2 id =>
       (RS U L (r_tip s) (revalidate L capw (r_p s)),
        lres_to (if v2 then lookup_v2 L capw (r_p s) id else lookup_v1 L capw (r_p s) id))
